@@ -587,7 +587,7 @@ def evaluate_payload_template(input, context, template):
                 raise IntrinsicFailure(
                     "States.JsonMerge failed, requires three arguments"
                 )
-            if args[2] != False:
+            if args[2] is not False:  # (0 is not false)
                 raise IntrinsicFailure(
                     "States.JsonMerge failed, args[2] must be false as Step " +
                     "Functions currently only supports the shallow merging mode."
